@@ -29,7 +29,11 @@ func curves(x *mon.Ctx) {
 		reps = 3
 	}
 	for _, cv := range []enc.Curve{enc.P224, enc.P384, enc.P521} {
+		validateShapes(x, cv)
+	}
+	for _, cv := range []enc.Curve{enc.P224, enc.P384, enc.P521} {
 		name := cvName(cv)
+		shapeCases(x, cv, []int{1, 2, 31, 32, 33, 100}, 1)
 		for rep := 0; rep < reps; rep++ {
 			for li, n := range lens {
 				for _, zero := range []bool{false, true} {
